@@ -126,7 +126,9 @@ info('C09',
       'compression numerics'],
      [])
 info('C10',
-     'P: fermionic sign algebra of order_combine_term and the term containers (see contracts/c_terms.py, shared with C12). '
+     'P: order_combine_term, real source, any number of factors: the nested loops sort the factors by site and '
+     'overall_sign * opval(sorted) == opval(original) in an uninterpreted Z2-graded operator algebra, using only explicit instances '
+     'of its defining exchange law (contracts/c_terms.py, shared with C12). '
      'B (bounded, not proof): random coupling models (onsite, two-site of any range/sign, 3-site, exponentially decaying; complex '
      'strengths; plus_hc; explicit_plus_hc) on finite open/periodic chains for every site family: dense MPO, term list -> MPO, '
      'bond operators, MPO from bonds, ExactDiag, get_numpy_Hamiltonian (both sources), get_scipy_sparse_Hamiltonian, sorted MPO '
@@ -137,7 +139,7 @@ info('C10',
       'not enumerated'],
      [])
 info('C12',
-     'P: fermionic sign algebra obligations shared with C10 (contracts/c_terms.py). '
+     'P: fermionic sign algebra of order_combine_term (bubble sort by site with sign bookkeeping, any length; shared with C10). '
      'B (bounded; the site part is a complete enumeration of the stated finite domain): every predefined site class over S <= 3, '
      'Nmax <= 4, q <= 5, fillings and every conserve option: operators equal up to perm across options, spin / fermion / boson / clock '
      'algebra, declared h.c. pairs, operator charges consistent with the connected states, product names; grouped sites of 2-3 '
